@@ -69,6 +69,8 @@ func c05InSitu(t *testing.T, rec *ev.Rec) {
 		}
 		done += c05InSituChain(t, rec, rnd, n, false, false)
 	}
+	// every order type (limit, market, market-making) against basic and ranged pools, judged per order record
+	c05InSituTypes(t, rec)
 }
 
 func c05InSituChain(t *testing.T, rec *ev.Rec, rnd *rand.Rand, nScen int, crafted, resting bool) (scenariosDone int) {
